@@ -114,12 +114,12 @@ impl WakerQueue {
     ensures *r == self.0@,
 //@end
 
-//@extract file=actix-server/src/waker_queue.rs item="impl WakerQueue / fn wake" props=C03,C05,C06,C08 name=waker_queue::wake intended_panics trace_calls=push_back,wake closures=1
+//@extract file=actix-server/src/waker_queue.rs item="impl WakerQueue / fn wake" props=C03,C04,C05,C06,C08 name=waker_queue::wake intended_panics trace_calls=push_back,wake closures=1
 //@spec
     requires true,
 //@insert fn_exit=1
         // on EVERY exit: exactly one interest is queued and the accept poll is woken exactly once, AFTER the interest is in the queue   [C03]
-        assert(r24_trace == seq![0int, 1int]);   // [C03,C05,C06,C08]
+        assert(r24_trace == seq![0int, 1int]);   // [C03,C04,C05,C06,C08]
 //@end
 
 //@extract file=actix-server/src/waker_queue.rs item="impl WakerQueue / fn guard" ret=r props=C03,C05,C06,C08 name=waker_queue::guard
